@@ -288,49 +288,65 @@ func oracleC19(v *View, vd *Verdict) {
 			}
 			return false, false
 		}
-		last := int64(-1) // last progress
-		n := int64(0)     // delays counted since
-		ticks := int64(0) // delays expired since (paused ones included)
+		// the timer is armed by Proceed and re-armed when a retry callback returns (or at once when the
+		// expired delay was a paused one); the callback runs under the transaction's lock, so a call made
+		// while it runs takes effect when it returns
+		arm := int64(-1)  // when the timer was armed last
+		busy := int64(-1) // a retry callback runs until then
+		n := int64(0)     // delays counted since the last progress
+		cb := tx.CbSleepNs
 		i := 0
 		for {
 			next := int64(-1)
-			if last >= 0 {
-				next = last + (ticks+1)*d
+			if arm >= 0 {
+				next = arm + d
 			}
-			if i < len(ops) && (next < 0 || ops[i].t < next) {
-				o := ops[i]
-				i++
-				switch o.op {
-				case "proceed":
-					last, n, ticks = o.t, 0, 0
-				case "success", "fail":
-					wantDone = o.t
-					wantErr = map[string]string{"success": "nil", "fail": "user-fail"}[o.op]
+			if i < len(ops) {
+				teff := ops[i].t
+				if teff < busy {
+					teff = busy
 				}
-				if wantDone >= 0 {
-					break
+				// (a call that lands within the jitter of a callback's end or of a tick cannot be ordered)
+				if cb > 0 && (busy >= 0 && abs64(ops[i].t-busy) < 5000 || next >= 0 && abs64(teff-next) < 5000) {
+					vd.Unknown++
+					return
 				}
-				continue
+				if next < 0 || teff < next {
+					o := ops[i]
+					i++
+					switch o.op {
+					case "proceed":
+						arm, n = teff, 0
+					case "success", "fail":
+						wantDone = teff
+						wantErr = map[string]string{"success": "nil", "fail": "user-fail"}[o.op]
+					}
+					if wantDone >= 0 {
+						break
+					}
+					continue
+				}
 			}
 			if next < 0 || next > horizon {
 				break
 			}
-			ticks++
+			rearmed++
 			if pz, edge := paused(next); edge {
 				vd.Unknown++
 				return
 			} else if pz {
-				rearmed++
+				arm = next
 				continue
 			}
 			n++
-			rearmed++
 			if n > int64(tx.Count) {
 				wantDone, wantErr = next, "no-more-retries"
 				break
 			}
 			want = append(want, next)
 			wantArm = append(wantArm, rearmed)
+			busy = next + cb
+			arm = busy
 		}
 	}
 	// calls made after the expected completion are outside this property (C18 covers them)
@@ -414,6 +430,25 @@ func genC19(g *Gen, idx int) *Plan {
 	tx.Threads = [][]TXOp{ops}
 	cfg.HorizonMs = (at+(int64(tx.Count)+3)*d)/1e6 + 10
 	fam := "C19-" + tx.Kind
+	if tx.Kind == "retry" && idx%6 == 1 {
+		// the retry callback is slow (a write that blocks): the next delay starts when it returns, and a
+		// call made meanwhile takes effect then; some of the calls are moved into a callback's time
+		fam += "-slowcb"
+		tx.CbSleepNs = []int64{d / 3, d / 2, d + d/2, 2 * d}[g.Intn(4)]
+		for k := 1; k < len(ops); k++ {
+			if g.Bool(0.5) {
+				ops[k].AtNs = ops[0].AtNs + g.Range(1, int64(tx.Count)+1)*(d+tx.CbSleepNs) - tx.CbSleepNs + g.Range(tx.CbSleepNs/10, tx.CbSleepNs*9/10)
+			}
+		}
+		sort.SliceStable(ops, func(a, b int) bool { return ops[a].AtNs < ops[b].AtNs })
+		for k := 2; k < len(ops); k++ {
+			if ops[k].AtNs <= ops[k-1].AtNs {
+				ops[k].AtNs = ops[k-1].AtNs + 30000
+			}
+		}
+		tx.Threads = [][]TXOp{ops}
+		cfg.HorizonMs += (int64(tx.Count) + 3) * tx.CbSleepNs / 1e6
+	}
 	if tx.Kind == "retry" && idx%3 == 2 {
 		// the peer cannot answer for a while (a sleeping client): delays that expire meanwhile are
 		// neither retried nor counted; 1-2 windows, edges off the tick grid
